@@ -47,6 +47,31 @@ def py_blocks_float(p, cse, e):
     return out
 
 
+def py_blocks_float_seq(p, cse, envs):
+    """Real code in floats: ONE filter, model / process / control Jacobians / sensor models evaluated at each env in turn;
+    returns the outputs of the LAST evaluation."""
+    with quiet():
+        ekf = pyh.build_ekf_float(p, envs[0], cse=cse)
+        out = {}
+        for e in envs:
+            st = ekf.State(**{s: float(e[s]) for s in p.state})
+            ct = ekf.Control(**{c: float(e[c]) for c in p.control})
+            dt = float(e[p.dt])
+            out = {}
+            nxt = ekf._state_model.model(dt, st, ct)
+            for i, s in enumerate(p.s_state()):
+                out[f"f_{s}"] = float(nxt.data[i, 0])
+            for nm, M in (("G", ekf.process_jacobian(dt, st, ct)), ("V", ekf.control_jacobian(dt, st, ct))):
+                for i in range(M.shape[0]):
+                    for j in range(M.shape[1]):
+                        out[f"{nm}_{i}_{j}"] = float(M[i, j])
+            for key in p.sensors:
+                h = ekf.sensor_models[key].model(st)
+                for i, r in enumerate(p.s_readings(key)):
+                    out[f"h_{key}_{r}"] = float(h.data[i, 0])
+    return out
+
+
 def py_task(p, tier, seed):
     part = Part()
     part.program(p.id)
@@ -55,6 +80,7 @@ def py_task(p, tier, seed):
     _, _, _, _, assumes = __import__("checks.c02", fromlist=["spec_pieces"]).spec_pieces(p, env)
     tmo = tier_timeout_ms(tier)
     outs = {}
+    env2 = pyh.second_env(env, keep=p.calibration)
     for cse in (True, False):
 
         def harness():
@@ -80,13 +106,28 @@ def py_task(p, tier, seed):
                         for j in range(H.shape[1]):
                             out[f"H_{key}_{i}_{j}"] = H[i, j]
                 n_tmp = len(ekf._state_model._impl._prefix) + len(ekf._impl_process_jacobian._prefix)
+                # history dimension: every block evaluated again on the same objects at independent inputs
+                st2 = ekf.State(**pyh.sym_state_kwargs(p.state, env2))
+                ct2 = ekf.Control(**pyh.sym_state_kwargs(p.control, env2))
+                dt2 = SymReal(env2[p.dt])
+                nxt2 = ekf._state_model.model(dt2, st2, ct2)
+                for i, s in enumerate(p.s_state()):
+                    out[f"second/f_{s}"] = nxt2.data[i, 0]
+                for nm, M in (("G", ekf.process_jacobian(dt2, st2, ct2)), ("V", ekf.control_jacobian(dt2, st2, ct2))):
+                    for i in range(M.shape[0]):
+                        for j in range(M.shape[1]):
+                            out[f"second/{nm}_{i}_{j}"] = M[i, j]
+                for key in p.sensors:
+                    h = ekf.sensor_models[key].model(st2)
+                    for i, r in enumerate(p.s_readings(key)):
+                        out[f"second/h_{key}_{r}"] = h.data[i, 0]
                 return out, n_tmp
 
         ls = explore(harness, assumes=assumes, config={"gate": "assume"})
         part.leaves(ls)
-        if len(ls) != 1 or ls[0].status != "ok":
+        if any(l_.status != "ok" for l_ in ls):
             # e.g. a temporary referenced before assignment -> missing keyword argument
-            l = ls[0]
+            l = [l_ for l_ in ls if l_.status != "ok"][0]
             e0 = pyh.seeded_points(list(env), seed, 1)[0]
             try:
                 py_blocks_float(p, cse, e0)
@@ -95,17 +136,36 @@ def py_task(p, tier, seed):
                 path = write_replay(PID, {"key": f"{p.id}/py/raises", "info": {"kind": "py", "program": p.id}, "inputs": e0, "exception": f"{type(ex).__name__}: {ex}"})
                 part.violation(f"{p.id}/py/raises", f"compiled Python code raises with cse={cse}: {type(ex).__name__}: {ex}", path)
             return part.d
-        outs[cse] = ls[0].value
-    (on, ntmp), (off, _) = outs[True], outs[False]
+        outs[cse] = ls
+    off_leaf = outs[False][0]
+    (off, _) = off_leaf.value
+    ntmp = outs[True][0].value[1]
     part.extra("py_temporaries", ntmp)
     if p.id.startswith("P7") and ntmp == 0:
         part.harness_error(f"{p.id}: vacuity: CSE produced no temporaries on the CSE-target program")
-    for nm in on:
+    allv2 = dict(env)
+    allv2.update({v.decl().name(): v for v in env2.values()})
+    assumes2 = assumes + [pyh.subst_env(a, env, env2) for a in assumes]
+    from .common import solve as _solve
 
-        def replay(e, nm=nm):
-            return {"impl": py_blocks_float(p, True, e)[nm], "spec": py_blocks_float(p, False, e)[nm]}
+    for li, on_leaf in enumerate(outs[True]):
+        on, _ = on_leaf.value
+        pa = assumes2 + on_leaf.pc + off_leaf.pc
+        if len(outs[True]) > 1 and _solve(pa, 5000).status == "unsat":
+            continue
+        tag = f"{p.id}/py" + (f"/path{li}" if len(outs[True]) > 1 else "")
+        for nm in on:
 
-        prove_equal(part, PID, f"{p.id}/py/{nm}: cse-on == cse-off", lift(on[nm]), lift(off[nm]), assumes, tmo, replay=replay, key=f"{p.id}/py/{nm}", info={"kind": "py", "program": p.id, "output": nm}, all_vars=env)
+            def replay(e, nm=nm):
+                if nm.startswith("second/"):
+                    e1 = {n_: e.get(n_, 0.25) for n_ in env}
+                    e2 = {n_: (e1[n_] if n_ in p.calibration else e.get(env2[n_].decl().name(), 0.5)) for n_ in env}
+                    a_ = py_blocks_float_seq(p, True, [e1, e2])[nm[7:]]
+                    b_ = py_blocks_float_seq(p, False, [e1, e2])[nm[7:]]
+                    return {"impl": a_, "spec": b_}
+                return {"impl": py_blocks_float(p, True, e)[nm], "spec": py_blocks_float(p, False, e)[nm]}
+
+            prove_equal(part, PID, f"{tag}/{nm}: cse-on == cse-off", lift(on[nm]), lift(off[nm]), pa, tmo, replay=replay, key=f"{p.id}/py/{nm}", info={"kind": "py", "program": p.id, "output": nm}, all_vars=allv2)
     part.sample({"program": p.id, "backend": "python", "temporaries": ntmp, "outputs": len(on)})
     return part.d
 
@@ -321,6 +381,15 @@ def replay(path):
         print("REPRODUCED" if bad else "not reproduced")
         return 1 if bad else 0
     if info["kind"] == "py":
+        if info.get("output", "").startswith("second/"):
+            e = r["inputs"]
+            e1 = {n_: e.get(n_, 0.25) for n_ in pyh.input_env(p)}
+            e2 = {n_: (e1[n_] if n_ in p.calibration else e.get(n_ + "__2", 0.5)) for n_ in e1}
+            a, b = py_blocks_float_seq(p, True, [e1, e2]), py_blocks_float_seq(p, False, [e1, e2])
+            bad = [k for k in a if not approx_equal(a[k], b[k])]
+            print({k: (a[k], b[k]) for k in bad})
+            print("REPRODUCED" if bad else "not reproduced")
+            return 1 if bad else 0
         try:
             a, b = py_blocks_float(p, True, r["inputs"]), py_blocks_float(p, False, r["inputs"])
         except Exception as ex:
